@@ -30,7 +30,9 @@ def run(seeds=(1, 2, 3)):
                 diffs.append(f"seed {seed}: '{n1}' stand-in={v1} real={v2}")
     res = {"ok": not diffs, "scenarios": total, "diffs": diffs[:20], "seeds": list(seeds)}
     os.makedirs(BUILD, exist_ok=True)
-    json.dump(res, open(os.path.join(BUILD, "selftest.json"), "w"))
+    tmp = os.path.join(BUILD, f"selftest.json.{os.getpid()}")
+    json.dump(res, open(tmp, "w"))
+    os.replace(tmp, os.path.join(BUILD, "selftest.json"))   # atomic: checks may run side by side
     return res
 
 
